@@ -45,6 +45,22 @@ func runC02(c *core.Ctx) {
 	}
 	// ---- construct-census
 	nCons, stray := 0, 0
+	constructs := func(fn *ssa.Function) bool {
+		for _, b := range fn.Blocks {
+			for _, in := range b.Instrs {
+				if al, ok := in.(*ssa.Alloc); ok {
+					if n, ok := al.Type().(*types.Pointer).Elem().(*types.Named); ok && n.Origin() == nt {
+						return true
+					}
+				}
+			}
+		}
+		return false
+	}
+	// a constructing helper used only by plain calls from the guarded constructors is analysed as part of them
+	for _, h := range coveredHelpers(c, ctors, constructs) {
+		ctors[h] = true
+	}
 	for _, pkg := range c.W.AllLogical() {
 		for _, fn := range c.W.SourceFuncs(pkg) {
 			for _, b := range fn.Blocks {
@@ -67,7 +83,7 @@ func runC02(c *core.Ctx) {
 		}
 	}
 	if stray == 0 {
-		c.Check(nCons >= 2, "construct-census", "optics."+nt.Obj().Name(), nt.Obj().Pos(), fmt.Sprintf("%d construction sites, all in the guarded constructors", nCons), "only %d construction sites found", nCons)
+		c.Check(nCons >= 1, "construct-census", "optics."+nt.Obj().Name(), nt.Obj().Pos(), fmt.Sprintf("%d construction sites, all in the guarded constructors", nCons), "only %d construction sites found", nCons)
 	}
 
 	guardRules(c)
